@@ -347,6 +347,13 @@ func (w *World) monQos2Once(h []ev) {
 		return "?"
 	}
 	pendingRel := map[int]map[packet.ID]bool{}
+	fresh := map[string]int{} // clientID|tag -> QoS 2 publishes of that payload that were not retransmissions
+	once := func(k string) int {
+		if fresh[k] > 1 {
+			return fresh[k]
+		}
+		return 1
+	}
 	mode := "sync"
 	// handed to the backend while it was not acknowledging synchronously and the acknowledgement is still outstanding
 	// (the recorded known finding); once the backend invokes its deferred acknowledgements the stored PUBLISH is gone
@@ -373,6 +380,9 @@ func (w *World) monQos2Once(h []ev) {
 					// the handshake only exists once the broker has answered with PUBREC (the PUBLISH may have been sent into a
 					// connection that was already gone)
 					offered[fmt.Sprintf("%d|%d", e.conn, p.ID)] = string(p.Message.Payload)
+					if !p.Dup {
+						fresh[cid(e.conn)+"|"+string(p.Message.Payload)]++ // the same payload published again is another message
+					}
 				}
 			case *packet.Pubrel:
 				if w.peers[e.conn] != nil && w.peers[e.conn].connected {
@@ -403,7 +413,7 @@ func (w *World) monQos2Once(h []ev) {
 					tainted[k] = true
 					taintMode[k] = mode
 				}
-				if count[k] > 1 {
+				if count[k] > once(k) {
 					kind := "qos2-forwarded-twice"
 					if tainted[k] {
 						kind += "/late-ack"
@@ -437,7 +447,7 @@ func (w *World) monQos2Once(h []ev) {
 	for k := range comp {
 		if count[k]-refusedN[k] <= 0 {
 			w.hit("qos2-not-exactly-once", fmt.Sprintf("QoS 2 message %s completed (PUBCOMP sent) although the backend accepted it %d times (handed over %d times, refused %d times)", k, count[k]-refusedN[k], count[k], refusedN[k]))
-		} else if count[k] == 0 || (count[k] > 1 && !excused[k]) {
+		} else if count[k] == 0 || (count[k] > once(k) && !excused[k]) {
 			w.hit("qos2-not-exactly-once", fmt.Sprintf("QoS 2 message %s completed (PUBCOMP sent) but handed to the backend %d times", k, count[k]))
 		}
 	}
@@ -489,6 +499,12 @@ func (w *World) monDelivery(h []ev) {
 		grantLog[k][f] = append(grantLog[k][f], gchg{at, q, present})
 	}
 	pubIdx := map[string]int{}
+	pubCount := map[string]int{} // a payload published more than once (an unchanged value reported again, maybe at another QoS)
+	type hand struct {
+		at  int
+		qos packet.QOS
+	}
+	handedAt := map[string][]hand{} // payload tag -> every hand-over to the backend, with the QoS it had
 	for ei, e := range h {
 		switch e.kind {
 		case "stim-send":
@@ -520,11 +536,13 @@ func (w *World) monDelivery(h []ev) {
 			case *packet.Publish:
 				if len(p.Message.Payload) > 0 {
 					pubs[string(p.Message.Payload)] = pub{p.Message.QOS, p.Message.Topic, p.Message.Retain}
+					pubCount[string(p.Message.Payload)]++
 				}
 			}
 		case "bpublish":
 			if p, ok := e.pkt.(*packet.Publish); ok {
 				handed[string(p.Message.Payload)]++
+				handedAt[string(p.Message.Payload)] = append(handedAt[string(p.Message.Payload)], hand{ei, p.Message.QOS})
 				if _, seen := pubIdx[string(p.Message.Payload)]; !seen {
 					pubIdx[string(p.Message.Payload)] = ei
 				}
@@ -573,8 +591,56 @@ func (w *World) monDelivery(h []ev) {
 			}
 			// qos: the lower of published and granted of some matching subscription (current or, for
 			// messages queued before a re-subscription, a previous grant) — or the published one
-			if p.Message.QOS <= orig.qos {
-				capOK = true
+			// a payload that was published more than once (a sensor repeating an unchanged value, maybe at another QoS): a live
+			// copy may stem from any of them; a retained copy stems from the one that was the retained message when this
+			// connection last subscribed to a matching filter, or from a later one
+			origQ := []packet.QOS{orig.qos}
+			if pubCount[tag] > 1 {
+				origQ = origQ[:0]
+				if p.Message.Retain {
+					// one candidate per matching SUBSCRIBE of this connection: what the backend held when it was made …
+					first := -1
+					for f, l := range grantLog[k] {
+						if !tmatch(f, p.Message.Topic) && validFilterStr(f) {
+							continue // (a filter outside §4.7.1 matches in the trie's own way)
+						}
+						for _, g := range l {
+							if !g.present {
+								continue
+							}
+							if first < 0 || g.at < first {
+								first = g.at
+							}
+							last := -1
+							for i, hd := range handedAt[tag] {
+								if hd.at < g.at {
+									last = i
+								}
+							}
+							if last >= 0 {
+								origQ = append(origQ, handedAt[tag][last].qos)
+							}
+						}
+					}
+					// … or a hand-over that overtook the SUBSCRIBE inside one batch of pipelined requests
+					for _, hd := range handedAt[tag] {
+						if first >= 0 && hd.at > first && (w.concurrent || w.noModel) {
+							origQ = append(origQ, hd.qos)
+						}
+					}
+				} else {
+					for _, hd := range handedAt[tag] {
+						origQ = append(origQ, hd.qos)
+					}
+				}
+				if len(origQ) == 0 {
+					origQ = append(origQ, orig.qos)
+				}
+			}
+			for _, oq := range origQ {
+				if p.Message.QOS <= oq {
+					capOK = true
+				}
 			}
 			// a session that ever held a filter outside §4.7.1 is outside the property's domain for "exactly the matching
 			// subscribers" (the trie treats such filters in its own way); C14 only demands that nothing breaks
@@ -598,11 +664,12 @@ func (w *World) monDelivery(h []ev) {
 			allowed := map[packet.QOS]bool{}
 			for f, q := range subs[k] {
 				if tmatch(f, p.Message.Topic) {
-					m := orig.qos
-					if q < m {
-						m = q
+					for _, m := range origQ {
+						if q < m {
+							m = q
+						}
+						allowed[m] = true
 					}
-					allowed[m] = true
 				}
 			}
 			// … or a grant that was in force at some moment since the message was handed to the backend
@@ -614,11 +681,12 @@ func (w *World) monDelivery(h []ev) {
 					for i, g := range l {
 						inForceLater := g.at >= from || i == len(l)-1 || l[i+1].at >= from
 						if g.present && inForceLater {
-							m := orig.qos
-							if g.qos < m {
-								m = g.qos
+							for _, m := range origQ {
+								if g.qos < m {
+									m = g.qos
+								}
+								allowed[m] = true
 							}
-							allowed[m] = true
 						}
 					}
 				}
